@@ -176,13 +176,13 @@ theorem example_G : (exReplay (exBlock 3 16 760) (exFrames [-123, -122, -122] 17
 
 /- from `Peppi.Lemmas.Example` -/
 open Extracted in
-theorem example_A_roundtrip (e : Bytes) :
+theorem example_A_roundtrip :
     let r := exReplay (exBlock 3 16 760) (exFrames [-123, -122, -122] 17 32 2 16 1 true) [2, 255, 0, 1, 255, 255]
     let s := startOf (exBlock 3 16 760)
     (∃ g, readSlp T0 {} (r.encodeAny s.version (portOccupancy s) none) = .ok g ∧
       writeSlp g = .ok (r.encodeAny s.version (portOccupancy s) none)) ∧
     ∀ n, n < (r.encodeAny s.version (portOccupancy s) none).length →
       ∃ e, readSlp T0 {} ((r.encodeAny s.version (portOccupancy s) none).take n) = .err e :=
-  _root_.Peppi.example_A_roundtrip e
+  _root_.Peppi.example_A_roundtrip 
 
 end Peppi.Props.C04
